@@ -605,12 +605,37 @@ func FindCrash(out string) (c Crash, ok bool) {
 				break
 			}
 		}
-		c.Sig = c.Kind + ":" + site
+		c.Sig = c.Kind + ":" + site + " [" + PanicClass(c.Header) + "]"
 		if c.Kind == "fatal" {
 			c.Sig = "fatal:" + strings.TrimPrefix(c.Header, "fatal error: ") + " at " + site
 		}
 	}
 	return c, true
+}
+
+var reDigits = regexp.MustCompile(`[0-9]+`)
+
+// PanicClass reduces a panic message to its kind, so that two different
+// defects in one function get different signatures while the values involved
+// do not matter: "interface conversion", "index out of range", "slice bounds
+// out of range", "nil pointer dereference", … (otherwise the first words of the
+// message with numbers removed).
+func PanicClass(header string) string {
+	h := strings.TrimPrefix(header, "panic: ")
+	h = strings.TrimPrefix(h, "runtime error: ")
+	h = strings.TrimSuffix(h, " [recovered]")
+	for _, k := range []string{"interface conversion", "index out of range", "slice bounds out of range", "nil pointer dereference", "makeslice: len out of range", "makeslice: cap out of range",
+		"integer divide by zero", "negative shift amount", "assignment to entry in nil map", "close of closed channel", "close of nil channel", "send on closed channel", "makechan: size out of range",
+		"hash of unhashable type", "comparing uncomparable type", "reflect:", "all goroutines are asleep"} {
+		if strings.Contains(h, k) {
+			return k
+		}
+	}
+	h = reDigits.ReplaceAllString(h, "N")
+	if len(h) > 48 {
+		h = h[:48]
+	}
+	return h
 }
 
 // PanicSite names the function that panicked from a debug.Stack() taken in a
